@@ -29,10 +29,15 @@ DiffSeq(a, b, path) ==
   ELSE LET ds == {i \in 1..Len(a.children) : DiffSeq(a.children[i], b.children[i], path \o "/" \o a.children[i].name) # NoDiff}
        IN IF ds = {} THEN NoDiff ELSE DiffSeq(a.children[MinOf(ds)], b.children[MinOf(ds)], path \o "/" \o a.children[MinOf(ds)].name)
 \* a dump in the set form of the spec (the context flag of when conditions is not judged)
+\* conditions as a bag (how many times each (text, namespace) occurs); the context of a when is judged by the replayer only
+Bag(q) == [x \in Range(q) |-> Cardinality({i \in 1..Len(q) : q[i] = x})]
+RECURSIVE SpecBags(_)
+SpecBags(n) == [n EXCEPT !.whens = Bag([i \in 1..Len(n.whens) |-> [text |-> n.whens[i].text, ns |-> n.whens[i].ns]]),
+                         !.children = {SpecBags(c) : c \in n.children}]
 RECURSIVE ToSet(_)
 ToSet(d) == [d EXCEPT !.children = {ToSet(d.children[i]) : i \in 1..Len(d.children)},
                       !.musts = {[text |-> d.musts[i].text, ns |-> d.musts[i].ns] : i \in 1..Len(d.musts)},
-                      !.whens = {[text |-> d.whens[i].text, ns |-> d.whens[i].ns, asparent |-> FALSE] : i \in 1..Len(d.whens)},
+                      !.whens = Bag([i \in 1..Len(d.whens) |-> [text |-> d.whens[i].text, ns |-> d.whens[i].ns]]),
                       !.uniques = {Range(d.uniques[i]) : i \in 1..Len(d.uniques)}]
 RECURSIVE DiffSet(_, _, _)
 DiffSet(a, b, path) ==
@@ -66,7 +71,7 @@ SchemaFails(e) ==
        IN IF a.verdict = "unjudged" THEN {}
           ELSE IF a.verdict # got THEN {[id |-> e.id, site |-> "schema", filter |-> "", attr |-> "verdict", kind |-> "", path |-> a.verdict \o " expected"]}
           ELSE IF ~e.ok THEN {}
-          ELSE LET d == DiffSet(a.schema, ToSet(e.dump), "")
+          ELSE LET d == DiffSet(SpecBags(a.schema), ToSet(e.dump), "")
                IN IF d = NoDiff THEN {} ELSE {[id |-> e.id, site |-> "schema", filter |-> "", attr |-> d.attr, kind |-> d.kind, path |-> d.path]}
 Unjudged(e) == e.judge /\ Analyse(e.mods, {<<e.feats[i][1], e.feats[i][2]>> : i \in 1..Len(e.feats)}).verdict = "unjudged"
 
